@@ -53,10 +53,36 @@ def mutate(r, b):
     return bytes(b[:p] + b[p + 1:]), "delete-byte"
 
 
-def run_schema(ctx, idx, config="tl2all", values=25, fills=25, mutations=4):
+class _FnCodec:
+    """functions as items for the differential: always boxed (tag + arguments)"""
+
+    def __init__(self, rc):
+        self.rc = rc
+
+    def value(self, d):
+        if isinstance(d, schemagen.Function):
+            return self.rc.fields_value(d.fields, {}, 0)
+        return self.rc.decl_value(d, {}, 0)
+
+    def enc(self, d, v, boxed):
+        if isinstance(d, schemagen.Function):
+            return self.rc.encode_function(d, v)
+        return self.rc.encode_item(d, v, boxed)
+
+    def dec(self, d, data, boxed):
+        if isinstance(d, schemagen.Function):
+            if len(data) < 4:
+                raise schemagen.RefError("eof")
+            if int.from_bytes(data[:4], "little") != d.tag:
+                raise schemagen.RefError("tag")
+            return self.rc.dec_fields(d.fields, data, 4, {})
+        return self.rc.decode_item(d, data, boxed)
+
+
+def run_schema(ctx, idx, config="tl2all", values=25, fills=25, mutations=4, label="c11"):
     """one random schema: generate, build, compare. Returns counters dict or None when the generator rejected the schema."""
-    s = schemagen.generate(ctx.seed, "c11/%d" % idx)
-    name = "rnd%d" % idx
+    s = schemagen.generate(ctx.seed, "%s/%d" % (label, idx))
+    name = "rnd%s%d" % (label if label != "c11" else "", idx)
     path = os.path.join(ctx.work, name + ".tl")
     open(path, "w").write(s.text())
     pkg = codec.build_pkg(ctx, name, [path], config, must=False)
@@ -64,8 +90,11 @@ def run_schema(ctx, idx, config="tl2all", values=25, fills=25, mutations=4):
     if pkg is None:
         cnt["schemas_rejected_or_not_built"] = 1
         return cnt, s
-    rc = schemagen.RefCodec(s, core.stream(ctx.seed, "c11v/%d" % idx))
-    r = core.stream(ctx.seed, "c11m/%d" % idx)
+    rc = schemagen.RefCodec(s, core.stream(ctx.seed, "%sv/%d" % (label, idx)))
+    fc = _FnCodec(rc)
+    r = core.stream(ctx.seed, "%sm/%d" % (label, idx))
+    for fn in s.functions:
+        fn.kind, fn.lname, fn.uname, fn.params = "function", fn.name, fn.name, []
     cases = []  # (id, kind, decl/fn, boxed, bytes, expect)
     lines = []
 
@@ -74,12 +103,12 @@ def run_schema(ctx, idx, config="tl2all", values=25, fills=25, mutations=4):
         cases.append({"id": cid, "op": "R", "decl": d, "boxed": boxed, "data": data, "expect": expect, "what": what})
         lines.append("R %d %s %d %s" % (cid, d.constructors[0].lname if d.kind in ("struct", "typedef") else d.uname, 1 if boxed else 0, data.hex() or "00" * 0))
 
-    items = [d for d in s.decls if not d.params]
+    items = [d for d in s.decls if not d.params] + list(s.functions)
     for d in items:
         for vi in range(values):
-            v = rc.decl_value(d, {}, 0)
+            v = fc.value(d)
             for boxed in ([True, False] if d.kind in ("struct", "typedef") else [True]):
-                data = rc.encode_item(d, v, boxed)
+                data = fc.enc(d, v, boxed)
                 if len(data) > 200000:
                     continue
                 add_read(d, boxed, data + b"\xde\xad\xbe\xef", ("accept", len(data), data), "ref-encoded")
@@ -87,8 +116,8 @@ def run_schema(ctx, idx, config="tl2all", values=25, fills=25, mutations=4):
                     m, mk = mutate(r, data)
                     try:
                         rc.unsorted_dict = False
-                        v2, n = rc.decode_item(d, m, boxed)
-                        re_enc = rc.encode_item(d, v2, boxed)
+                        v2, n = fc.dec(d, m, boxed)
+                        re_enc = fc.enc(d, v2, boxed)
                         exp = ("accept", n, re_enc) if re_enc == m[:n] and not rc.unsorted_dict else ("accept-noncanonical", n, re_enc)
                     except schemagen.RefError as e:
                         exp = ("reject", str(e))
@@ -151,12 +180,12 @@ def run_schema(ctx, idx, config="tl2all", values=25, fills=25, mutations=4):
                 continue
             cnt["fills"] = cnt.get("fills", 0) + 1
             for form, boxed in (("boxed", True), ("bare", False)):
-                if d.kind in ("union", "enum") and not boxed:
+                if d.kind in ("union", "enum", "function") and not boxed:
                     continue
                 data = bytes.fromhex(ev[form])
                 try:
-                    v, n = rc.decode_item(d, data, boxed)
-                    again = rc.encode_item(d, v, boxed)
+                    v, n = fc.dec(d, data, boxed)
+                    again = fc.enc(d, v, boxed)
                 except schemagen.RefError as e:
                     viol("ref-rejects-generated-output", dict(c, data=data), "reference codec cannot decode %s TL1 written by generated code (%s): %s" % (form, e, data.hex()[:400]))
                     continue
